@@ -171,6 +171,7 @@ def run(prog, chk):
     completeness_prefix_rule(prog, chk)
     chk.rule("R15.5", "every memo key is reached from the parameters through identity conversions only (the key is an injective image of the inputs)")
     lossless_key_rule(prog, chk, "R15.5")
+    position_unit_rule(prog, chk)
 
 
 PREFIX_PRESERVING = ("strip_suffix", "trim_end", "trim_end_matches", "trim_right", "trim_right_matches", "strip_suffix_of", "as_str", "as_ref", "deref",
@@ -269,3 +270,60 @@ def lossless_key_rule(prog, chk, rid, only=None):
             else:
                 chk.ok(rid, "identity-key:%s:%s" % (fn.rsplit("::", 1)[-1], (t.callee or "").rsplit("::", 1)[-1]), "key reached through identity conversions only", function=fn)
     chk.floor(rid, "memo key operands examined", n, 1)
+
+
+UNIT_OPS = ("Lt", "Le", "Gt", "Ge", "Eq", "Ne", "Sub", "Add", "SubWithOverflow", "AddWithOverflow")
+BYTE_LEN = ("str::len", "alloc::string::String::len")
+BYTE_INDEXED = ("str::get", "str::get_mut", "str::split_at", "str::is_char_boundary", "alloc::string::String::truncate", "alloc::string::String::insert",
+                "alloc::string::String::insert_str", "alloc::string::String::split_off", "alloc::string::String::remove", "alloc::string::String::replace_range",
+                "alloc::string::String::drain")
+
+
+def position_unit_rule(prog, chk):
+    """R15.6: SourcePosition.index counts *characters* (the tokenizer advances it once per char). The completeness decision, error
+    reporting and the highlighter receive such positions together with the text; comparing one with a byte length (str::len) or using it
+    as a byte offset into a str is right for ASCII and wrong as soon as the accumulated input contains a multi-byte character — on
+    standard input that turns an unfinished here-document or quote into "bad input" and the program is handed over early."""
+    from dataflow import flow_back
+    from facts import canon
+    chk.rule("R15.6", "SourcePosition.index (characters) is never compared / added / subtracted with a byte length (str::len) nor used as a byte offset into a str")
+
+    def is_pos(fl):
+        return any(any(canon(p[2]).endswith("source::SourcePosition") and p[3] == "index" for p in f.path if p[0] == 'f') for f in fl)
+
+    def converted(fl):
+        vias = {v for f in fl for v in f.via}
+        return any(("Chars" in v and v.endswith("count")) or v.endswith(("char_indices", "CharIndices as core::iter::traits::iterator::Iterator>::nth", "Vec::get", "[T]::get")) for v in vias)
+
+    n = 0
+    for b in prog.all_bodies(SHIPPED):
+        d = None
+        fn = owner(b.name)
+        for bl in b.blocks:
+            for st in bl.stmts:
+                if st.kind == 'a' and st.rv.kind == 'bin' and st.rv.op in UNIT_OPS and len(st.rv.ops) == 2:
+                    d = d or defs_of(b)
+                    fls = [flow_back(b, d, op, all_args=False) for op in st.rv.ops]
+                    pos = [is_pos(fl) for fl in fls]
+                    if not any(pos):
+                        continue
+                    n += 1
+                    for i in (0, 1):
+                        if pos[i] and not pos[1 - i]:
+                            ovias = {v for f in fls[1 - i] for v in f.via}
+                            if any(v in BYTE_LEN or v.endswith("::str::len") for v in ovias) and not converted(fls[1 - i]):
+                                chk.fail("R15.6", fn, "character-position-vs-byte-length",
+                                         "%s combines SourcePosition.index (a character count) with a byte length (%s, %s): equal only for ASCII text — with a multi-byte "
+                                         "character in the input the comparison goes the other way" % (fn, st.rv.op, b.loc(bl.term.line)))
+            t = bl.term
+            if t.kind == "call" and (t.best_callee() or t.callee or "") in BYTE_INDEXED or t.kind == "call" and (t.best_callee() or t.callee or "").startswith("core::str::traits::<impl core::ops::index::Index"):
+                d = d or defs_of(b)
+                for a in t.args[1:]:
+                    fl = flow_back(b, d, a, all_args=False)
+                    if is_pos(fl) and not converted(fl):
+                        n += 1
+                        chk.fail("R15.6", fn, "character-position-as-byte-offset",
+                                 "%s uses SourcePosition.index (a character count) as a byte offset in %s (%s)" % (fn, (t.best_callee() or t.callee).rsplit("::", 1)[-1], b.loc(t.line)))
+    chk.floor("R15.6", "arithmetic / comparison sites on SourcePosition.index", n, 5)
+    if not any(v["rule"] == "R15.6" for v in chk.violations):
+        chk.ok("R15.6", "positions-stay-in-characters", "%d sites: positions are combined with positions and constants only" % n, function="(workspace)")
